@@ -212,3 +212,26 @@ pub fn table_json(text: &str, settings: &Settings) -> crate::Result<String> {
         table_fields(&g, &table)
     ))
 }
+
+/// Like [`table_json`] but with every disambiguation meta-datum (production
+/// and terminal priorities, associativities, nops/nopse) reset to its default
+/// before the table is built, so that with GLR settings and shift preferences
+/// off every action cell holds all its candidates.
+pub fn table_json_raw(text: &str, settings: &Settings) -> crate::Result<String> {
+    let mut g = parse_grammar(text)?;
+    for p in g.productions.iter_mut() {
+        p.prio = crate::grammar::DEFAULT_PRIORITY;
+        p.assoc = Associativity::None;
+        p.nops = false;
+        p.nopse = false;
+    }
+    for t in g.terminals.iter_mut() {
+        t.assoc = Associativity::None;
+    }
+    let table = LRTable::new(&g, settings)?;
+    Ok(format!(
+        "{{{},{}}}",
+        grammar_fields(&g),
+        table_fields(&g, &table)
+    ))
+}
